@@ -183,6 +183,9 @@ def check_history(prop, tier, seed):
                                  odd=0.08 if prop in ('C09', 'C08', 'C07', 'C04') else 0.0,
                                  ctrl=0.12 if prop in ('C10', 'C11') else 0.0)
     extra = {}
+    if prop == 'C08':
+        # the function-shaped part of "no operation modifies an argument": parse_graphic_sequence with list arguments
+        camp = merge(camp, campaign.run_campaign('pgs_codes', 1, seed))
     if prop in ('C08', 'C09'):
         rt = campaign.run_repo_tests()
         camp = merge(camp, rt)
@@ -343,7 +346,14 @@ def check_c15(prop, tier, seed):
     extra = campaign.run_campaign('aset_extra', 1, seed)
     hist = campaign.run_campaign('history', 8000 if thorough else 1200, seed, profile='C15', nops=10, maxlen=6, more=0.4,
                                  odd=0.35, epilogue=('render8',))
-    return report(prop, tier, seed, t0, merge(camp, extra, hist), design,
+    # "settings given as AnsiFormat members, their names, known codes or in-range helper results are always valid and
+    # parsable": the documented spellings themselves (names, codes, colour helpers and strings)
+    from .drivers import spellings   # noqa: F401  (registers nothing; the generators are in the registry)
+    names = member_names()
+    sel = names if thorough else names[:24] + __import__('random').Random(seed).sample(names[24:], 40)
+    docs = merge(campaign.run_campaign('sp_codes', 1, seed), campaign.run_campaign('sp_colours', 1, seed),
+                 campaign.run_campaign('sp_names', (len(sel) + 7) // 8, seed, names=sel, block=8, per_shard_max=100000))
+    return report(prop, tier, seed, t0, merge(camp, extra, hist, docs), design,
                   extra_cov={'rule': 'all setting texts over {0 1 2 3 5 8 ; space ? : m} up to length %d plus boundary texts and all '
                                      'codes 0..255, each flag read twice and in both orders; renderings (8 flag sets) of values '
                                      'with verbatim and invalid settings for the strip/verbatim/conjunction clauses' % maxlen,
